@@ -1377,6 +1377,43 @@ func main() {
 		}
 	}
 
+	// menu (every tier, before the random stream, so that the classic shapes do not depend on its luck):
+	// the three-level chain top{w; d1{w; d2{w; out2}; w; out1}; w; out0} with every assignment of
+	// nil / error / panic to the three blocks and both choices "the enclosing function returns / ignores
+	// the nested call's error" at both levels, fault-free, configurations rotating
+	{
+		outs := []string{"nil", "err", "panic"}
+		i := 0
+		for _, o0 := range outs {
+			for _, o1 := range outs {
+				for _, o2 := range outs {
+					for chk := 0; chk < 4; chk++ {
+						mkb := func(out string, e int64, items ...Item) *Blk {
+							b := &Blk{Items: items, Out: out}
+							if out != "nil" {
+								b.E = e
+							}
+							return b
+						}
+						w := func() Item { return Item{K: "write", Chk: true} }
+						d2 := mkb(o2, 2, w())
+						d1 := mkb(o1, 1, w(), Item{K: "child", B: d2, Chk: chk&1 != 0, Rcv: o2 == "panic" && chk&1 == 0}, w())
+						top := mkb(o0, 0, w(), Item{K: "child", B: d1, Chk: chk&2 != 0, Rcv: (o1 == "panic" || o2 == "panic") && chk&2 == 0}, w())
+						var next int64
+						c := cfgs[i%8]
+						c.Via = []string{"", "session", "both"}[i%3]
+						in := Input{Top: "block", Body: cloneBlk(top, &next), Cfg: c, Fault: -1, Phase: "exec"}
+						if i%5 == 4 {
+							in.Top = "manual"
+						}
+						add("menu", in)
+						i++
+					}
+				}
+			}
+		}
+	}
+
 	budget := 600
 	if a.Tier == "thorough" {
 		budget = 6000
